@@ -193,7 +193,7 @@ class LibMixin:
             if attr == "StreamWriter":
                 return L("asyncio.StreamWriter")
         elif n == "operator":
-            if attr in ("attrgetter", "itemgetter"):
+            if attr in ("attrgetter", "itemgetter", "methodcaller"):
                 return F(f"operator.{attr}")
         elif n == "itertools":
             return F(f"itertools.{attr}")
@@ -1086,6 +1086,15 @@ class LibMixin:
 
     def lib_getitem_swapped(self, a, kw, run, node):
         return self.getitem(a[1], a[0], run, node)
+
+    def lib_operator_methodcaller(self, a, kw, run, node):
+        if not a or not isinstance(a[0], str):
+            self.limit("operator.methodcaller with a non-constant method name", node)
+        return PartialV(LibFn.get("methodcall_swapped"), [a[0], tuple(a[1:]), DictV(dict(kw))], {})
+
+    def lib_methodcall_swapped(self, a, kw, run, node):
+        name, args, kwargs, obj = a[0], a[1], a[2], a[3]
+        return self.call(self.getattr_(obj, name, run, node), list(args), dict(kwargs.d), run, node)
 
     def lib_getattr_swapped(self, a, kw, run, node):
         return self.getattr_(a[1], a[0], run, node)
